@@ -11,7 +11,13 @@ Leg B2 correspondence: seeded command scripts are run through the model's harnes
        sleep decides an outcome).  Compared after EVERY command: where the worker is parked and which line it holds,
        call-log length, dropped_lines(), which producer is blocked, completed writes, state of the guard drop;
        and at the end the whole call log, every write's outcome, the counter.
-Leg C  oracle: the property's clauses evaluated on the real observations alone (see `oracle`)."""
+Leg C  oracle: the property's clauses evaluated on the real observations alone (see `oracle`).
+Leg D  storm (truly concurrent; no model comparison): N free-running producer threads x many uniquely numbered lines into a
+       small queue over the same scripted writer with the worker free-running or slowed down, then drop(guard).  Judged by
+       clauses that hold on EVERY schedule (so the verdict is one-sided and sound whatever the OS scheduler does): written
+       lines distinct and offered, per-producer order, exact accounting #write_all calls + dropped_lines() == #offered (lossy)
+       / everything written, counter 0 (non-lossy).  Samples schedules the command-by-command driver cannot produce (several
+       writes in flight at once, e.g. producers racing for the slot the worker has just freed)."""
 import glob
 import hashlib
 import json
@@ -544,13 +550,142 @@ def check_cases(ctx, rep, cases, variant, binp, timeouts):
     return disagree
 
 
+# ------------------------------------------------------------------------------------------------------------------
+# leg D: free-running producers (schedules the op-by-op driver cannot produce); one-sided verdict
+
+def gen_storms(ctx):
+    rng = ctx.rng
+    n = 12 if not ctx.thorough() else 60
+    out = []
+    for i in range(n):
+        lossy = (i % 4) != 3
+        nprod = rng.choice([2, 4, 8, 8, 8])
+        c = {"mode": "storm", "cap": rng.choice([1, 1, 2, 3, 4]), "lossy": lossy, "nprod": nprod,
+             "throttle": rng.choice([0, 0, 1, 3, 1005, 1030]) if lossy else rng.choice([0, 0, 1]),
+             "nlines": rng.choice([1500, 3000, 5000]) if lossy else rng.choice([60, 150, 300]),
+             "faults": sorted(set(rng.randrange(400) for _ in range(rng.choice([0, 0, 2, 6])))),
+             "guard_after": None, "bound_ms": 30000}
+        if i % 6 == 5:
+            c["guard_after"] = rng.randrange(1, c["nprod"] * c["nlines"])
+        out.append(c)
+    return out
+
+
+def storm_oracle(c, o):
+    """clauses that hold on every schedule; returns [(what, details)]"""
+    v = []
+    nprod, nlines, lossy = c["nprod"], c["nlines"], c["lossy"]
+    offered = nprod * nlines
+    exact = c.get("guard_after") is None
+    W = [e[1] for e in o["log"] if e[0] == 1]
+    nfail = sum(1 for e in o["log"] if e[0] == 1 and not e[2])
+    ok_ret = sum(p[0] for p in o["producers"])
+    err_ret = sum(p[1] for p in o["producers"])
+    short = sum(p[2] for p in o["producers"])
+    counts = {"offered": offered, "write_all_calls": len(W), "of_which_failed": nfail, "dropped_lines": o["dropped"],
+              "writes_returned_ok": ok_ret, "writes_returned_err": err_ret, "short_counts": short}
+    if o["problems"]:
+        v.append(("concurrent run did not come to rest: %s" % "; ".join(o["problems"])[:300], counts))
+        return v
+    if o["unknown"]:
+        v.append(("a write_all call carries bytes that are not one offered buffer (not whole): %s" % o["unknown"][0][:80], counts))
+    seen = set()
+    last = {}
+    for x in W:
+        if x == 0:
+            continue
+        p, i = x // 1000000 - 1, x % 1000000 - 1
+        if not (0 <= p < nprod and 0 <= i < nlines):
+            v.append(("line id %d was written but never offered" % x, counts))
+            break
+        if x in seen:
+            v.append(("line %d (producer %d, its line #%d) was handed to write_all twice" % (x, p, i), counts))
+            break
+        seen.add(x)
+        if last.get(p, -1) > i:
+            v.append(("producer %d's line #%d was written after its line #%d: per-producer order broken" % (p, i, last[p]), counts))
+            break
+        last[p] = i
+    if short:
+        v.append(("%d writes returned a short count" % short, counts))
+    if lossy and err_ret:
+        v.append(("lossy mode: %d writes returned an error" % err_ret, counts))
+    if not lossy and o["dropped"]:
+        v.append(("non-lossy mode: dropped_lines() = %d" % o["dropped"], counts))
+    if not o["worker_exited"] or not o["writer_dropped"]:
+        v.append(("after every sender and the guard were dropped the worker %s, the writer was %sreleased"
+                  % ("exited" if o["worker_exited"] else "is still running", "" if o["writer_dropped"] else "not "), counts))
+        return v
+    if [e[0] for e in o["log"][-2:]] != [2, 3] or sum(1 for e in o["log"] if e[0] == 3) != 1:
+        v.append(("the call log does not end with one flush, release (last calls %s)" % [e[0] for e in o["log"][-2:]], counts))
+    accounted = len(W) + o["dropped"] + (0 if lossy else err_ret)
+    if exact:
+        if not lossy and err_ret:
+            v.append(("non-lossy mode: %d writes were refused although the guard was dropped only after every producer had finished" % err_ret, counts))
+        if accounted != offered:
+            missing = [(p + 1) * 1000000 + i + 1 for p in range(nprod) for i in range(nlines) if (p + 1) * 1000000 + i + 1 not in seen]
+            counts["not_written_ids_sample"] = missing[:8]
+            counts["not_written_total"] = len(missing)
+            if accounted < offered:
+                v.append(("%s accounting: offered %d, handed to write_all %d (%d of them failed), dropped_lines() %d: %d lines were silently lost "
+                          "(neither written nor counted); %d ids never reached write_all but the counter explains only %d of them, e.g. line %d"
+                          % ("lossy" if lossy else "non-lossy", offered, len(W), nfail, o["dropped"], offered - accounted, len(missing), o["dropped"],
+                             missing[0] if missing else -1), counts))
+            else:
+                v.append(("%s accounting: offered %d but write_all calls %d + dropped_lines() %d = %d > offered (a line both written and counted as dropped)"
+                          % ("lossy" if lossy else "non-lossy", offered, len(W), o["dropped"], accounted), counts))
+    elif accounted > offered:
+        v.append(("guard dropped while producers were running: write_all calls %d + dropped_lines() %d + refused %d exceed the %d lines offered"
+                  % (len(W), o["dropped"], 0 if lossy else err_ret, offered), counts))
+    return v
+
+
+def run_storm_one(binp, c):
+    rc, out = vlib.sh([binp], 120, input=json.dumps(c))
+    for line in out.splitlines():
+        if line.startswith("{"):
+            try:
+                return json.loads(line), None
+            except ValueError:
+                pass
+    return None, "rc=%d %s" % (rc, out[-300:])
+
+
+def check_storms(ctx, rep, binp, storms, attempts=1):
+    t = time.time()
+    for c in storms:
+        bad = None
+        for _ in range(attempts):
+            o, err = run_storm_one(binp, c)
+            rep.evaluations += 1
+            rep.count("storm:rounds")
+            if o is None:
+                rep.tie("run:h_nonblocking-storm", False, str(err), {"case": {"storm": c}})
+                break
+            W = sum(1 for e in o["log"] if e[0] == 1)
+            rep.count("storm:lines-offered", c["nprod"] * c["nlines"])
+            rep.count("storm:write_all-calls", W)
+            rep.count("storm:dropped", o["dropped"])
+            rep.count("storm:" + ("lossy" if c["lossy"] else "non-lossy") + (":guard-dropped-mid-run" if c.get("guard_after") is not None else ""))
+            if W and (o["dropped"] or not c["lossy"]):
+                rep.nontrivial.add("storm:" + hashlib.sha1(json.dumps(c, sort_keys=True).encode()).hexdigest()[:12])
+            bad = storm_oracle(c, o)
+            if bad:
+                break
+        for what, counts in (bad or []):
+            rep.violation(what, {"case": {"storm": c}, "observed": counts})
+    ctx.log("storm: %d rounds (%.1fs)" % (len(storms), time.time() - t))
+
+
 def setup_report(ctx):
     rep = Report(ctx)
     rep.rule = ("seeded command scripts (producer write / close, worker gate release, guard drop, timeout wait, gates open / closed) over "
                 "cap in {1,2,3,4,8}, lossy / non-lossy, 1-4 producers, fault scripts over write_all / flush calls; families: random, "
                 "fill-then-drain bursts, guard drop at a chosen point, F11 shape, forced 100 ms / 1 s timeouts, corpus.  Non-trivial: the run "
                 "reaches both a full queue (a dropped or blocked write) and an empty one (the worker goes idle), or an injected fault fires, or "
-                "the guard is dropped with lines queued; distinct by (cap, mode, programs, faults, executed commands)")
+                "the guard is dropped with lines queued; distinct by (cap, mode, programs, faults, executed commands).  Plus storm rounds: 2-8 "
+                "free-running producer threads x 60-5000 uniquely numbered lines, cap 1-4, worker free or slowed down, judged by schedule-independent "
+                "clauses (non-trivial: lines were both written and dropped, or non-lossy)")
     rep.assumptions = [
         "crossbeam_channel is a dependency: bounded(n) is modelled as a FIFO of capacity n >= 1, bounded(0) as a rendezvous",
         "real time: the guard's 100 ms / 1 s timeouts are nondeterministic model steps; C15_guard_drop assumes they do not fire, i.e. the underlying writer makes progress within them (a writer stalled longer makes drop return without having written: by design, not a finding)",
@@ -598,6 +733,7 @@ def run(ctx):
         if c.get("broken"):
             rep.tie("corpus", False, "%s: %s" % (c["tag"], c["broken"]))
     check_cases(ctx, rep, cases, variant, binp, timeouts)
+    check_storms(ctx, rep, binp, gen_storms(ctx))
     if ctx.thorough():
         ok, rpaths, log = cargo_build(ctx, "nonblocking", ["h_nonblocking"], release=True)
         if not ok:
@@ -605,6 +741,7 @@ def run(ctx):
         else:
             sub = [c for c in cases if not c.get("broken")][: 400]
             check_cases(ctx, rep, sub, variant, rpaths["h_nonblocking"], timeouts)
+            check_storms(ctx, rep, rpaths["h_nonblocking"], gen_storms(ctx))
     return rep
 
 
@@ -622,6 +759,11 @@ def replay(ctx, payload):
     if front is None:
         return rep
     variant, timeouts, binp = front
+    if "storm" in case:
+        # the failing schedule is the OS scheduler's: re-run the same round a few times (stops at the first violation)
+        check_storms(ctx, rep, binp, [case["storm"]], attempts=8)
+        rep.nontrivial.add("replay")
+        return rep
     c = dict(case)
     c.setdefault("tag", "replay")
     check_cases(ctx, rep, [c], variant, binp, timeouts)
